@@ -346,7 +346,10 @@ impl<'a> Checker<'a> {
             }
             Verdict::Invalid(why) => {
                 self.rep.count("reference/invalid");
-                if effect && same_parse(&m.bytes, genuine) {
+                // the exemption only covers invalidity that stems from the edit: at this server clock
+                // the genuine request itself must be acceptable (otherwise the request is stale, and
+                // taking effect is exactly what the statement forbids)
+                if effect && same_parse(&m.bytes, genuine) && !matches!(reftsig::judge_request(genuine, &keys, now), Verdict::Invalid(_)) {
                     // don't-care: the edit touches nothing hickory's message model carries (reserved
                     // header bit, bytes after the end of the message): what is signed and what is
                     // parsed are unchanged
